@@ -250,17 +250,22 @@ def run(ctx):
             ctx.count(f'family:{d.family}')
             # ---- export-geometry
             for fmt, ext in [('geojson', '.geojson'), ('geojson', '.json'), ('wkt', '.wkt'), ('wkb', '.wkb'), ('shapefile', '.shp')]:
-                explicit = rng.random() < 0.5
-                out = os.path.join(tmp, f'cli_{n}_{fmt}{ext}' if not explicit else f'cli_{n}_{fmt}.out')
-                argv = ['export-geometry', src, out] + (['-f', fmt] if explicit else [])
+                mode = rng.choice(['guessed', 'guessed', 'unknown_ext', 'conflicting_ext', 'matching_ext', 'no_ext'])
+                explicit = mode != 'guessed'
+                other_ext = rng.choice([e for f_, e in [('geojson', '.geojson'), ('geojson', '.json'), ('wkt', '.wkt'), ('wkb', '.wkb')]
+                                        if f_ != fmt])
+                out = os.path.join(tmp, f'cli_{n}_{fmt}_{mode}' + {'guessed': ext, 'unknown_ext': '.out', 'conflicting_ext': other_ext,
+                                                                   'matching_ext': ext, 'no_ext': ''}[mode])
+                argv = ['export-geometry', src, out] + ([rng.choice(['-f', '--format']), fmt] if explicit else [])
                 code, err = run_cli(argv)
                 lib = os.path.join(tmp, f'lib_{n}_{fmt}{ext}')
                 with warnings.catch_warnings():
                     warnings.simplefilter('ignore')
                     lr = attempt(getattr(geometry_ops, f'write_{fmt}'), ondisk, lib)
                 case = {'dataset': label, 'command': argv[:1] + ['<in>', os.path.basename(out)] + argv[3:]}
-                ctx.case((label, 'export', fmt, explicit), True, sample=case if n == 0 and fmt == 'wkt' else None)
+                ctx.case((label, 'export', fmt, mode), True, sample=case if n == 0 and fmt == 'wkt' else None)
                 ctx.count(f'export:{fmt}:{"explicit" if explicit else "guessed"}')
+                ctx.count(f'export:output name:{mode}')
                 if lr[0] != 'ok':
                     if code == 0:
                         ctx.report('property', f'library write_{fmt} fails ({lr[1]}) but the command exits 0', case)
